@@ -936,7 +936,17 @@ pub fn gen_control_flow(rng: &mut Rng, avoid: &Avoid) -> Scenario {
         main.push(g.st(StmtKind::Close(vec![])));
     }
     main.push(g.trace());
-    main.push(g.st(StmtKind::End));
+    // the main module may also end without END: its last statement is then the last
+    // statement of the module text (possible only when no GOSUB body or handler follows)
+    let open_end = g.gosub_bodies.is_empty() && !need_h1 && g.rng.chance(1, 2);
+    if open_end {
+        if g.f.fails && g.rng.chance(1, 2) {
+            let s = g.fail_stmt();
+            main.push(s);
+        }
+    } else {
+        main.push(g.st(StmtKind::End));
+    }
     // GOSUB bodies
     let bodies = std::mem::take(&mut g.gosub_bodies);
     for b in bodies {
